@@ -61,7 +61,7 @@ static Plan gen_c05(uint64_t seed, const std::string &tier) {
             fmt += "%{cmdline}"; } break;
         case 8: if (!used_filename) { used_filename = true; size_t n = (size_t)r.range(1, 600); e.path = value(n); fmt += "%{filename}"; } break;
         case 9: fmt += r.chance(1, 2) ? "%{failure}" : "%{nosuch" + std::string(r.chance(1, 2) ? ":arg" : "") + "}"; break;
-        case 10: { static const char *odd[] = {"%{}", "%{:x}", "%{noop}", "%{noop:arg}", "%{cwd}", "%{failure}", "%{snoopy_literal}", "%{env}", "%{snoopy_literal:}", "%{env:}"}; fmt += odd[r.below(10)]; break; }   // data sources that write nothing / fail
+        case 10: { static const char *odd[] = {"%{}", "%{:x}", "%{noop}", "%{noop:arg}", "%{cwd}", "%{failure}", "%{snoopy_literal}", "%{snoopy_literal:}", "%{snoopy_literal}"}; fmt += odd[r.below(9)]; break; }   // (a bare %{env} prints "(undefined)", whose letters would disturb the per-letter accounting below)   // data sources that write nothing / fail
         default: { size_t n = r.chance(1, 3) ? (size_t)r.range(95, 105) : (size_t)r.range(1, 300); if (fmt.size() + n > 900) n = 5; fmt += "%{" + std::string(n, 'Q') + "}"; }
         }
     }
